@@ -1,6 +1,7 @@
 package limits
 
 import (
+	"context"
 	"fmt"
 	"math/rand/v2"
 	"sort"
@@ -115,6 +116,24 @@ func phaseLimits(r *mon.Run) {
 		}
 		runLimitCase(r, c)
 	}
+	maxMu.Lock()
+	defer maxMu.Unlock()
+	r.Extra("max_concurrent_handlers_observed_by_limit", maxSeen)
+}
+
+var (
+	maxMu   sync.Mutex
+	maxSeen = map[string]int{}
+)
+
+// noteMax keeps, per limit value, the largest number of concurrently running
+// handlers the manager proxy ever saw (for one peer resp. one subnet).
+func noteMax(key string, v int) {
+	maxMu.Lock()
+	if v > maxSeen[key] {
+		maxSeen[key] = v
+	}
+	maxMu.Unlock()
 }
 
 type liveAtt struct {
@@ -230,6 +249,9 @@ func runLimitCase(r *mon.Run, c LimitCase) {
 		node.CM.G.Shut()
 		node.CM.ResetMax()
 		r.Count("limit.bursts", 1)
+		if bi > 0 {
+			r.Eval() // every burst is an evaluated sub-case of its own
+		}
 		burstID := uint32(bi + 1)
 		release := make(chan struct{})
 		var relOnce sync.Once
@@ -377,8 +399,12 @@ func runLimitCase(r *mon.Run, c LimitCase) {
 		// every observation must respect the limits
 		o := node.CM.Observed()
 		r.SetAdd("limit.max_per_peer_by_limit", fmt.Sprintf("L%d:%d", L, o.MaxPerPeer))
+		noteMax(fmt.Sprintf("MaxInflightRPCs=%d", L), o.MaxPerPeer)
 		if B > 0 {
 			r.SetAdd("limit.max_per_subnet_by_limit", fmt.Sprintf("B%d:%d", B, o.MaxPerSubnet))
+			noteMax(fmt.Sprintf("MaxInflightRPCsPerSubnet=%d", B), o.MaxPerSubnet)
+		} else {
+			noteMax(fmt.Sprintf("MaxInflightRPCsPerSubnet=%d(disabled)", B), o.MaxPerSubnet)
 		}
 		if len(o.Excess) > 0 {
 			x := o.Excess[0]
@@ -516,6 +542,11 @@ type StallCase struct {
 	PerPeer      int    `json:"maxInflightRPCs"`
 	Streams      int    `json:"streams"`
 	RPCTimeoutMs int    `json:"rpcTimeoutMs"`
+	// CoreutilsClient: the peer is a real coreutils syncer whose goroutines
+	// call Peer.SendV2Blocks concurrently (Trials rounds of Streams calls);
+	// the frame order is then up to the scheduler.
+	CoreutilsClient bool `json:"coreutilsClient"`
+	Trials          int  `json:"trials,omitempty"`
 }
 
 func phaseStall(r *mon.Run) {
@@ -524,6 +555,53 @@ func phaseStall(r *mon.Run) {
 		c := StallCase{Phase: "stall", Index: i, PerPeer: 1 + i, Streams: 3 + i, RPCTimeoutMs: 1500}
 		r.Sample(c)
 		runStallCase(r, c)
+	}
+	c := StallCase{Phase: "stall", Index: 10, PerPeer: 1, Streams: 5, RPCTimeoutMs: 1000, CoreutilsClient: true, Trials: r.Pick(150, 600)}
+	r.Sample(c)
+	runStallCase(r, c)
+}
+
+func runStallCoreutilsClient(r *mon.Run, c StallCase, w *limitlab.World, node *limitlab.Node) {
+	cl, err := w.NewNode(limitlab.NodeConfig{IP: victimIP(240), Opts: []syncer.Option{
+		syncer.WithSyncInterval(time.Hour), syncer.WithPeerDiscoveryInterval(time.Hour)}})
+	if err != nil {
+		r.Inconclusive("stall: cannot build client node: " + err.Error())
+		return
+	}
+	cl.Start()
+	defer closeNode(r, "limit", cl, c)
+	ctx, cancel := context.WithTimeout(context.Background(), 10*time.Minute)
+	defer cancel()
+	p, err := cl.S.Connect(ctx, node.Addr)
+	if err != nil {
+		r.Inconclusive("stall: client could not connect: " + err.Error())
+		return
+	}
+	hist := []types.BlockID{node.Real.Tip().ID}
+	r.Distinct(fmt.Sprintf("stall/coreutils-client/L%d/streams%d", c.PerPeer, c.Streams))
+	for t := 0; t < c.Trials; t++ {
+		errs := make([]error, c.Streams)
+		var wg sync.WaitGroup
+		for i := range errs {
+			wg.Add(1)
+			go func(i int) {
+				defer wg.Done()
+				_, _, errs[i] = p.SendV2Blocks(ctx, hist, 1, 120*time.Second)
+			}(i)
+		}
+		wg.Wait()
+		r.Count("stall.coreutils_client_trials", 1)
+		var lost []string
+		for _, e := range errs {
+			if e != nil {
+				lost = append(lost, e.Error())
+			}
+		}
+		if len(lost) > 0 {
+			r.Count("stall.coreutils_client_requests_lost", len(lost))
+			r.Violation("backpressure-stall-drops-request:coreutils-client", fmt.Sprintf("round %d: %d of %d concurrent Peer.SendV2Blocks calls of a coreutils syncer failed against a coreutils syncer with MaxInflightRPCs=%d and the subnet limit disabled (RPC id and request body are separate writes; the id of a later call overtook the body of an admitted one)", t, len(lost), c.Streams, c.PerPeer), c, lost)
+			return
+		}
 	}
 }
 
@@ -543,6 +621,10 @@ func runStallCase(r *mon.Run, c StallCase) {
 	node.CM.RegisterPeer(1, limitlab.SubnetKey("127.18.3.3", 32))
 	node.Start()
 	defer closeNode(r, "limit", node, c)
+	if c.CoreutilsClient {
+		runStallCoreutilsClient(r, c, w, node)
+		return
+	}
 	a, err := w.DialAttacker(1, node.Addr, "127.18.3.3", 46000, nil)
 	if err != nil {
 		r.Inconclusive("stall: attacker could not connect: " + err.Error())
